@@ -662,6 +662,23 @@ func c08RuleB(c *core.Ctx, r *c08roles, prov *c08Prov) {
 		if nUpd == 0 {
 			c.Unresolved("R08b", "namespace table updates", "the namespace table is never written")
 		}
+		// bindings are only ever added or re-bound: the document's in-scope bindings are not modelled per element, so an
+		// entry removed (delete/clear, or the table replaced) at an end tag also unbinds the declaration of an enclosing
+		// element that uses the same URI (seed C08-8)
+		nDel := 0
+		for _, f := range r.idrFns {
+			for _, ci := range core.Calls(f) {
+				bi, ok := ci.Common().Value.(*ssa.Builtin)
+				if !ok || (bi.Name() != "delete" && bi.Name() != "clear") || len(ci.Common().Args) == 0 {
+					continue
+				}
+				if fl, _ := c04FieldLoad(ci.Common().Args[0]); fl == tableFld {
+					nDel++
+					c.Bad("R08b", core.FuncKey(f)+" removes namespace bindings", core.InstrPos(ci), "entries are removed from the namespace table ("+bi.Name()+"): the table is keyed by URI and does not record which element declared a binding, so removing the entry at the end of one element also removes the binding an enclosing element declared for the same URI — later names in that namespace lose their prefix or fail")
+				}
+			}
+		}
+		c.OK("R08b", "namespace bindings are never removed", 0, fmt.Sprintf("%d delete/clear call(s) on the namespace table", nDel))
 	}
 
 	// (4) JSON sinks (element / document nodes; text nodes are R08a)
